@@ -13,16 +13,16 @@ def hexNat? (s : String) : Option Nat :=
     | some a, some v => some (a * 16 + v)
     | _, _ => none) (if s.isEmpty then none else some 0)
 
-/-- exact value of a finite float64 given by its bits -/
-def ratOfBits (b : Nat) : Option Rat :=
+/-- exact value of a float64 given by its bits -/
+def factorOfBits (b : Nat) : RawFactor :=
   let neg : Bool := b / 2 ^ 63 % 2 == 1
   let e : Nat := b / 2 ^ 52 % 2048
   let m : Nat := b % 2 ^ 52
-  if e == 2047 then none else
+  if e == 2047 then (if m != 0 then .nan else if neg then .negInf else .posInf) else
   let mag : Rat :=
     if e == 0 then (m : Rat) * (2 : Rat) ^ (-1074 : Int)
     else (((2 ^ 52 + m : Nat) : Int) : Rat) * (2 : Rat) ^ ((e : Int) - 1075)
-  some (if neg then -mag else mag)
+  .fin (if neg then -mag else mag)
 
 structure Spec where
   kind : FileState        -- state (for flaky files: during the first `flaky` attempts)
@@ -97,21 +97,16 @@ def parseErr : Nat → List String → Option (Err × List String)
   | _, _ => none
 
 def step (cfg : Cfg) (l : String) : Cfg × String :=
-  -- `d:nan`: BaseDelay = 0 and factor^(attempt-1) beyond float64 (0 * +Inf = NaN in the code) — a float corner
-  -- outside the rational model; the harness prints the same token and reports the real value in its monitor
+  -- the delays NewDatabaseRecovery(raw).calculateDelay(1..6) returns
   let showCfg (c : Cfg) : String :=
-    "cfg" ++ String.join ((List.range 6).map (fun i =>
-      if c.base == 0 && decide ((2 : Rat) ^ 1024 ≤ c.factor ^ i) then " d:nan" else s!" d:{delayNs c (i + 1)}"))
+    "cfg" ++ String.join ((List.range 6).map (fun i => s!" d:{delayNs c (i + 1)}"))
   match words l with
   | ["cfg", "default"] => (defaultCfg, showCfg defaultCfg)
   | ["cfg", a, b, m, f] =>
     match intOf? a, intOf? b, intOf? m, (if f.startsWith "f:" then hexNat? (f.drop 2).toString else none) with
     | some a, some b, some m, some bits =>
-      match ratOfBits bits with
-      | some q =>
-        let c : Cfg := { maxAttempts := a, base := b, max := m, factor := q }
-        (c, showCfg c)
-      | none => (cfg, "non-finite-factor")
+      let c := sanitize { maxAttempts := a, base := b, max := m, factor := factorOfBits bits }
+      (c, showCfg c)
     | _, _, _, _ => (cfg, "bad-op")
   | ["load", ms, ps, bs] =>
     match parseSpec "m" ms, parseSpec "p" ps, parseSpec "b" bs with
@@ -150,7 +145,7 @@ def step (cfg : Cfg) (l : String) : Cfg × String :=
   | _ => (cfg, "bad-op")
 
 def runCase (ops : Array String) : Array String := Id.run do
-  let mut cfg : Cfg := { maxAttempts := 1, base := 0, max := 0, factor := 1 }
+  let mut cfg : Cfg := { maxAttempts := 1, base := 0, max := 0, factor := .fin 1 }
   let mut out := #[]
   for l in ops do
     let r := step cfg l
